@@ -149,7 +149,22 @@ PROPS["C06"] = {
     "partial": "",
 }
 
+PROPS["C07"] = {
+    "gen": ["Filter", "Samplers", "Toast"],
+    "trusted_base": ["that a tile's pixel centres lie inside its corner bounding box (latitude range of the corners; longitudes within the unwrapped corner range) is float geometry: measured by brute force over all 65536 centres of every tile to depth 4-5, not proved",
+                     "astropy WCS evaluations inside _image_bounds (pixel -> world) are library calls; the bounds are compared with a dense evaluation of the same WCS (tolerance 0.1 image pixel, the accuracy of sampling a curved edge at pixel resolution)",
+                     "the bbox model works in exact arithmetic with tau = the double TWOPI; the compiled function rounds `lon + TWOPI`: disagreements that flip under a 1e-9 nudge are counted, not reported"],
+    "assumptions": COMMON_ASSUME + ["bounding boxes have lon_min < lon_max and lat_min < lat_max (asserted by _latlon_tile_filter)",
+                                    "chunked maps: sky positions exactly on a pixel boundary of the map may round either way (half-to-even in chunk-local vs global coordinates)"],
+    "partial": "pixel centres within the corner box; WCS library (floating point)",
+}
+
 LEVEL_TEXT = {
+    "C07": {
+        "text": "Kernel-checked in exact arithmetic, for every corner set and every box (any longitude origin, any width incl. > 2π, wrap-around): the five-comparator network sorts and permutes; the unwrapping loop, when it ends, leaves a sorted range at most π wide containing every corner longitude up to whole turns; steps 3-4 answer true whenever a longitude strictly inside that range coincides mod 2π with a longitude of the box; hence the bbox test has no false negatives w.r.t. the tile's own corner box, and pole tiles whose latitude range meets the box are accepted. Chunk arithmetic re-extracted from jpeg2000.py / samplers.py each run: every map pixel lies in exactly one chunk; a chunk's sampler maps a sky position (not on a pixel boundary) to the chunk-local index of the same pixel the whole-map sampler (C11) reads, and keeps it iff that pixel is in the chunk; a chunk's bounds strictly contain all its pixel centres. The refinement of _image_bounds samples along the right axis of each edge, at gaps of at most one pixel, and a pole inside the image sets the latitude bound. The compiled bbox test, the transliterated .pyx and the model are run on the same exact inputs; boxes, WCS images and chunks are checked by brute force over all pixel centres of all tiles to depth 4-5 incl. ancestors; filtered vs full sampling and chunk-by-chunk vs whole-map sampling are compared pixel by pixel.",
+        "note": "trusted: Lean kernel; extraction (gen_more.gen_filter, pyx2py); the harness. The link from a tile's pixel centres to its corner box and the WCS library are validated numerically only.",
+        "technique": "Lean 4 proof (exact-arithmetic model of the interval logic and chunk arithmetic, extracted from source) + differential and brute-force numeric execution",
+    },
     "C06": {
         "text": "The statement sequence of ToastSampler.visit_callback / __init__ and of sample_layer[_filtered] is re-extracted each run; the per-pixel merge and the persistence rules are the generated C15 definitions. Kernel-checked for every sampler, coordinate function, pixel mode, set of visited tiles and order of visits: the image handed to the writer is, in display orientation, the sampler at the coordinates of the same tile and pixel; rows are reversed exactly when the format the tiles are written in (default or override) is bottom-up (FITS); callbacks of different tiles commute, so any permutation of a duplicate-free visit list leaves the same pyramid; a visited tile holds the sampled image (clobber; no file when completely masked) or the C15 merge into its previous content (update), an unvisited tile is untouched; composed with the C03 theorem: in every returned state of the parallel hand-off, for any number of workers and any interleaving, the pyramid equals the serial one. Real sample_layer / sample_layer_filtered runs (depth 0-3, both systems, npy/fits/png with and without a format override, masked scalar and RGB samplers, clobber over existing tiles, two-pass updates, 1 and 3 workers) are read back file by file with independent decoders.",
         "note": "trusted: Lean kernel; AST extraction (gen_more.gen_sampling); the harness and its independent decoders.",
